@@ -24,7 +24,9 @@ STUBS = ['packages / steps / tools / sandbox are stubs; PartialIR (job specifica
 ASSUMPTIONS = ['the package graph is a DAG; identical Variant-Id means identical step']
 BOUNDS = ('root + variants lib-a, lib-b, lib-c of recipe lib + recipe x + a tool package tc that exists inside and outside a sandbox; '
           'every dependency kind (none/argument/tool) between the four packages in index order, every non-empty root dependency '
-          'subset in 4 rotations, sandbox on lib-b, isolate pattern on/off')
+          'subset in 4 rotations, sandbox on lib-b, isolate pattern on/off; check_jobs2: lib-a and lib-b sharing one build step '
+          '(same Variant-Id and dependencies), the second recipe named like the package prefix of a split job (lib-a / lib-a-x), root depending on all four or '
+          'on the three lib variants in 4 rotations, forwards and backwards')
 
 
 class Recipe:
@@ -121,12 +123,24 @@ class FakeIR:
         self.added.append(step)
 
 
-def build_world(kinds, rootmask, rot, sbx_b, tool_a, tool_b):
-    lib, xr = Recipe('lib'), Recipe('x')
-    P = [Pkg('lib-a', lib, b'a', ['root', 'lib-a']), Pkg('x', xr, b'x', ['root', 'x']),
+def build_world(kinds, rootmask, rot, sbx_b, tool_a, tool_b, share_ab=False, rev=False, clash=False):
+    # clash: the second recipe is a multiPackage recipe whose *recipe* name equals the name a split job of
+    # recipe lib gets from its package prefix (lib-a); package names stay distinct
+    lib, xr = Recipe('lib'), Recipe('lib-a' if clash else 'x')
+    xn = 'lib-a-x' if clash else 'x'
+    P = [Pkg('lib-a', lib, b'a', ['root', 'lib-a']), Pkg(xn, xr, b'x', ['root', xn]),
          Pkg('lib-b', lib, b'b', ['root', 'lib-b']), Pkg('lib-c', lib, b'c', ['root', 'lib-c'])]
+    if share_ab:
+        # lib-a and lib-b are variants that differ in the package step only: their build steps have the same
+        # Variant-Id and the same dependencies (multiPackage with a common buildScript / depends)
+        P[2].build.vid = P[0].build.vid
+        P[2].build.args = P[0].build.args
     pairs = [(0, 1), (0, 2), (0, 3), (1, 2), (1, 3), (2, 3)]
     for (i, j), k in zip(pairs, kinds):
+        if share_ab and (i, j) == (0, 2) and k == 1:
+            continue        # the common build step cannot depend on one of its own packages
+        if share_ab and (i, j) == (1, 2) and kinds[0] == 1:
+            continue        # lib-b's (common) build step already depends on the second recipe: keep the graph a DAG
         if k == 1:
             P[i].build.args.append(P[j].dist)
         elif k == 2:
@@ -140,6 +154,8 @@ def build_world(kinds, rootmask, rot, sbx_b, tool_a, tool_b):
     if sbx_b:
         P[2].build.sandbox = Sandbox(sb.dist)
         P[2].dist.sandbox = Sandbox(sb.dist)
+        if share_ab:
+            P[0].build.sandbox = Sandbox(sb.dist)
     if tool_a:
         P[0].dist.tools['tc'] = Tool(tc_plain.dist)
     if tool_b:
@@ -147,6 +163,8 @@ def build_world(kinds, rootmask, rot, sbx_b, tool_a, tool_b):
     root = Pkg('root', Recipe('root'), b'r', ['root'])
     deps = [P[i] for i in range(4) if rootmask & (1 << i)]
     deps = deps[rot % max(len(deps), 1):] + deps[:rot % max(len(deps), 1)]
+    if rev:
+        deps.reverse()
     root.build.args = [d.dist for d in deps]
     return root
 
@@ -163,9 +181,9 @@ def reachable(root_step):
     return out
 
 
-def scenario(kinds, rootmask, rot, sbx_b, tool_a, tool_b, isolate):
+def scenario(kinds, rootmask, rot, sbx_b, tool_a, tool_b, isolate, share_ab=False, rev=False, clash=False):
     JJ.PartialIR = FakeIR
-    root = build_world(kinds, rootmask, rot, sbx_b, tool_a, tool_b)
+    root = build_world(kinds, rootmask, rot, sbx_b, tool_a, tool_b, share_ab, rev, clash)
     calc = JJ.JobNameCalculator('')
     calc.addPackage(root)
     calc.isolate('^lib-b$' if isolate else None)
@@ -187,29 +205,42 @@ def scenario(kinds, rootmask, rot, sbx_b, tool_a, tool_b, isolate):
     vid = JJ.getJenkinsVariantId
     built = {}
     for name, job in jobs.items():
+        recipes = set()
         for s in job.getPackageSteps():
             built.setdefault(vid(s), set()).add(name)
+            recipes.add(s.getPackage().getRecipe().getName())
+        # jobs are formed per recipe (or isolated package): two recipes in one job = two distinct jobs got one name
+        if len(recipes) > 1:
+            return False, 'job-names-not-unique'
     steps = reachable(root.getPackageStep())
     for s in steps:
         if s.isPackageStep():
             owners = built.get(vid(s), set())
             if len(owners) != 1:
                 return False, 'package-built-by-%d-jobs' % len(owners)
-    # a job depends on the jobs of everything its steps use
-    jobof = {}
+    # a job depends on the jobs of everything its steps use.  A checkout/build step with one Variant-Id may belong
+    # to several packages (and jobs): it is looked up in the job that uses it, package steps in their only job.
+    injob = set()
     for name, job in jobs.items():
+        mine = set()
         for s in list(job.getPackageSteps()) + list(job.getBuildSteps()) + list(job.getCheckoutSteps()):
-            jobof[vid(s)] = name
+            mine.add(vid(s))
+        injob |= mine
+        ups = job.getUpstreamJobs()
+        for s in list(job.getPackageSteps()) + list(job.getBuildSteps()) + list(job.getCheckoutSteps()):
+            for d in s.getAllDepSteps():
+                if d.isPackageStep():
+                    owners = built.get(vid(d), set())
+                    if len(owners) != 1:
+                        return False, 'dependency-in-no-job'
+                    dj = next(iter(owners))
+                    if dj != name and dj not in ups:
+                        return False, 'missing-upstream'
+                elif vid(d) not in mine:
+                    return False, 'own-step-in-other-job'
     for s in steps:
-        me = jobof.get(vid(s))
-        if me is None:
+        if vid(s) not in injob:
             return False, 'step-in-no-job'
-        for d in s.getAllDepSteps():
-            dj = jobof.get(vid(d))
-            if dj is None:
-                return False, 'dependency-in-no-job'
-            if dj != me and dj not in jobs[me].getUpstreamJobs():
-                return False, 'missing-upstream'
     return True, 'ok'
 
 
@@ -235,9 +266,31 @@ def check_jobs(k0: int, k1: int, k2: int, k3: int, k4: int, k5: int, rootmask: i
     return V.verdict(ok, fact)
 
 
+def check_jobs2(k0: int, k1: int, k2: int, k3: int, k4: int, k5: int, allroots: bool, rot: int,
+                rev: bool, share_ab: bool, clash: bool, sbx_b: bool) -> bool:
+    """
+    pre: 0 <= k0 <= 2 and 0 <= k1 <= 2 and 0 <= k2 <= 2 and 0 <= k3 <= 2 and 0 <= k4 <= 2 and 0 <= k5 <= 2
+    pre: 0 <= rot <= 3
+    pre: k0 == V.SHARD[0] and k1 == V.SHARD[1]
+    pre: share_ab or clash
+    pre: V.SHARD[2] or not sbx_b
+    post: _
+    """
+    V.enter()
+    kinds = [V.concretize(k, 3) for k in (k0, k1, k2, k3, k4, k5)]
+    rt = V.concretize(rot, 4)
+    with V.fast():
+        ok, fact = scenario(kinds, 15 if allroots else 13, rt, bool(sbx_b), False, False, False,
+                            bool(share_ab), bool(rev), bool(clash))
+    return V.verdict(ok, fact)
+
+
 def PLAN(tier):
     q = tier == 'quick'
     P = []
+    for a in range(3):
+        for b in range(3):
+            P.append(dict(fn='check_jobs2', shard=[a, b, not q], timeout=400 if q else 3000))
     for a in range(3):
         for b in range(3):
             rot = (not q) or a == 1
